@@ -11,13 +11,14 @@ Notation exc_ids := (map snd exceptions).
 (* ---------------------------------------------------------------- identifiers *)
 Lemma finalb_simple_ids w o : lic_canon licenses w = Some o <->
   exists core plus, w = core ++ plus /\ ((plus = [] /\ last_is 43 w = false) \/ plus = [43]) /\
-    ((prefixb licenseref_lc (afold core) = true /\ forallb ref_char core = true /\ o = licenseref_prefix ++ skipn 11 core ++ plus) \/
+    ((prefixb licenseref_lc (afold core) = true /\ forallb ref_char core = true /\ skipn 11 core <> [] /\
+      o = licenseref_prefix ++ skipn 11 core ++ plus) \/
      (prefixb licenseref_lc (afold core) = false /\ exists id, In id lic_ids /\ afold id = afold core /\ o = id ++ plus)).
 Proof. exact (lic_canon_iff licenses exceptions spdx_table_ok (proj1 spdx_keys_nodup) w o). Qed.
 
 Lemma finalb_simple_ids_readable w o : lic_canon licenses w = Some o <->
   exists core plus, w = core ++ plus /\ ((plus = [] /\ last_is 43 w = false) \/ plus = [43]) /\
-    ((exists p suffix, core = p ++ suffix /\ afold p = licenseref_lc /\ forallb ref_char suffix = true /\
+    ((exists p suffix, core = p ++ suffix /\ afold p = licenseref_lc /\ suffix <> [] /\ forallb ref_char suffix = true /\
                        o = licenseref_prefix ++ suffix ++ plus) \/
      (prefixb licenseref_lc (afold core) = false /\ exists id, In id lic_ids /\ afold id = afold core /\ o = id ++ plus)).
 Proof. exact (simple_id_iff licenses exceptions spdx_table_ok (proj1 spdx_keys_nodup) w o). Qed.
@@ -26,7 +27,7 @@ Lemma finalb_exception_ids w o : exc_canon exceptions w = Some o <-> In o exc_id
 Proof. exact (exc_id_iff licenses exceptions spdx_table_ok (proj2 spdx_keys_nodup) w o). Qed.
 
 Lemma finalb_vs_strict w o : lic_canon licenses w = Some o <->
-  strict_simple licenses w o \/ (ref_empty_suffix w /\ o = licenseref_prefix ++ skipn 11 w) \/ (ref_with_plus w /\ o = licenseref_prefix ++ skipn 11 w).
+  strict_simple licenses w o \/ (ref_with_plus w /\ o = licenseref_prefix ++ skipn 11 w).
 Proof. exact (lic_canon_vs_strict licenses exceptions spdx_table_ok (proj1 spdx_keys_nodup) w o). Qed.
 
 (* no id of the bundled licence table looks like a LicenseRef: the second branch's side condition is about the input only *)
